@@ -88,6 +88,15 @@ func NewRun(prop, tier string) *Run {
 	return r
 }
 
+// evidenceDir is /verif/evidence unless BMVERIF_EVIDENCE redirects it (used when the
+// checks are pointed at a scratch copy, so that the committed evidence is not disturbed).
+func (r *Run) evidenceDir() string {
+	if d := os.Getenv("BMVERIF_EVIDENCE"); d != "" {
+		return d
+	}
+	return filepath.Join(r.VerifDir, "evidence")
+}
+
 // Rel makes a position relative to the repo root ("pkg/x/y.go:12").
 func (r *Run) Rel(pos string) string {
 	pos = strings.TrimPrefix(pos, r.Repo+"/")
@@ -199,7 +208,7 @@ func (r *Run) Finish() int {
 	})
 
 	var nDis, nViol, nKnown, nUndec, nInfo int
-	replayDir := filepath.Join(r.VerifDir, "evidence", "replay")
+	replayDir := filepath.Join(r.evidenceDir(), "replay")
 	os.MkdirAll(replayDir, 0o755)
 	// remove stale replay files of this property
 	if old, _ := filepath.Glob(filepath.Join(replayDir, r.Prop+"-*.json")); old != nil {
@@ -362,7 +371,7 @@ func (r *Run) writeEvidence(total, nDis, nKnown, nViol, nUndec, nInfo int, stale
 		fmt.Fprintln(os.Stderr, "evidence marshal:", err)
 		return
 	}
-	dir := filepath.Join(r.VerifDir, "evidence")
+	dir := r.evidenceDir()
 	os.MkdirAll(dir, 0o755)
 	os.WriteFile(filepath.Join(dir, r.Prop+".json"), append(b, '\n'), 0o644)
 }
